@@ -123,6 +123,10 @@ def argtype_error(prog: Program, res: "Resolver", call: ast.Call, fn: FuncInfo) 
         if i >= len(params) or params[i].annotation is None:
             continue
         want = shape(res.ann_types(g.module, params[i].annotation))
+        ann = params[i].annotation
+        if isinstance(arg, ast.Constant) and isinstance(arg.value, int) and not isinstance(arg.value, bool) and isinstance(ann, ast.Name) \
+                and (ann.id in ("bytes", "bytearray", "str", "list", "tuple", "dict", "set") or (want and all(k == "inst" for k, _ in want))):
+            return "argument %d of %s is the integer constant %r where a %s is expected" % (i + 1, g.short, arg.value, ann.id)
         try:
             got = shape(res.expr_types(arg, fn))
         except Exception:
